@@ -52,3 +52,33 @@ package statistics
 //@   props C34
 //@   ensures absent: !has(WMap, coreIndex) ==> result == 0
 //@   ensures load: has(WMap, coreIndex) ==> result == WMap[coreIndex].PackageSpec.Length + 4104*((uint32(WMap[coreIndex].PackageSpec.ExportsCount)*65 + 63)/64)
+
+// d: only the author's octet counter changes (its value is a sum over the preimages, not stated here); a block without
+// preimages changes nothing
+//@ func UpdatePreimageOctetStatistics
+//@   props C34
+//@   requires idx: statistics != nil && int(authorIndex) < len(statistics.ValsCurr)
+//@   ensures rest: rec(statistics, authorIndex).Blocks == old(rec(statistics, authorIndex).Blocks) && rec(statistics, authorIndex).Tickets == old(rec(statistics, authorIndex).Tickets) && rec(statistics, authorIndex).PreImages == old(rec(statistics, authorIndex).PreImages) && rec(statistics, authorIndex).Guarantees == old(rec(statistics, authorIndex).Guarantees) && rec(statistics, authorIndex).Assurances == old(rec(statistics, authorIndex).Assurances)
+//@   ensures others: only_author(statistics, authorIndex)
+//@   ensures none: len(preimages) == 0 ==> rec(statistics, authorIndex).PreImagesSize == old(rec(statistics, authorIndex).PreImagesSize)
+//@   ensures one: len(preimages) == 1 ==> rec(statistics, authorIndex).PreImagesSize == old(rec(statistics, authorIndex).PreImagesSize) + uint32(len(preimages[0].Blob))
+//@   assigns statistics.ValsCurr[*]
+//@   loop rangeindex#0
+//@     invariant range: rangeindex >= -1 && rangeindex < len(preimages) && statistics != nil && len(statistics.ValsCurr) == old(len(statistics.ValsCurr)) && sameblock(statistics.ValsCurr, old(statistics.ValsCurr))
+//@     invariant rest: rec(statistics, authorIndex).Blocks == old(rec(statistics, authorIndex).Blocks) && rec(statistics, authorIndex).Tickets == old(rec(statistics, authorIndex).Tickets) && rec(statistics, authorIndex).PreImages == old(rec(statistics, authorIndex).PreImages) && rec(statistics, authorIndex).Guarantees == old(rec(statistics, authorIndex).Guarantees) && rec(statistics, authorIndex).Assurances == old(rec(statistics, authorIndex).Assurances)
+//@     invariant others: only_author(statistics, authorIndex)
+//@     invariant first: (rangeindex == -1 ==> rec(statistics, authorIndex).PreImagesSize == old(rec(statistics, authorIndex).PreImagesSize)) && (rangeindex == 0 ==> rec(statistics, authorIndex).PreImagesSize == old(rec(statistics, authorIndex).PreImagesSize) + uint32(len(preimages[0].Blob)))
+//@     invariant frame: frame_only(elems(statistics.ValsCurr))
+
+// GP (13.9) R: a core without an incoming report contributes nothing; with one, b is the bundle length and a report
+// with a single digest contributes exactly that digest's refine load
+//@ func CalculateWorkResults
+//@   props C34
+//@   ensures absent: !has(wMap, coreIndex) ==> result.Imports == 0 && result.ExtrinsicCount == 0 && result.ExtrinsicSize == 0 && result.Exports == 0 && result.GasUsed == 0 && result.BundleSize == 0
+//@   ensures bundle: has(wMap, coreIndex) ==> result.BundleSize == wMap[coreIndex].PackageSpec.Length
+//@   ensures empty: has(wMap, coreIndex) && len(wMap[coreIndex].Results) == 0 ==> result.Imports == 0 && result.ExtrinsicCount == 0 && result.ExtrinsicSize == 0 && result.Exports == 0 && result.GasUsed == 0
+//@   ensures single: has(wMap, coreIndex) && len(wMap[coreIndex].Results) == 1 ==> result.Imports == wMap[coreIndex].Results[0].RefineLoad.Imports && result.ExtrinsicCount == wMap[coreIndex].Results[0].RefineLoad.ExtrinsicCount && result.ExtrinsicSize == wMap[coreIndex].Results[0].RefineLoad.ExtrinsicSize && result.Exports == wMap[coreIndex].Results[0].RefineLoad.Exports && result.GasUsed == wMap[coreIndex].Results[0].RefineLoad.GasUsed
+//@   loop rangeindex#0
+//@     invariant range: rangeindex >= -1 && rangeindex < len(workReport.Results)
+//@     invariant first: (rangeindex == -1 ==> output.Imports == 0 && output.ExtrinsicCount == 0 && output.ExtrinsicSize == 0 && output.Exports == 0 && output.GasUsed == 0) && (rangeindex == 0 ==> output.Imports == workReport.Results[0].RefineLoad.Imports && output.ExtrinsicCount == workReport.Results[0].RefineLoad.ExtrinsicCount && output.ExtrinsicSize == workReport.Results[0].RefineLoad.ExtrinsicSize && output.Exports == workReport.Results[0].RefineLoad.Exports && output.GasUsed == workReport.Results[0].RefineLoad.GasUsed)
+//@     invariant frame: frame_only()
